@@ -9,6 +9,7 @@ import (
 
 	"github.com/bufbuild/buf/private/bufpkg/bufconfig"
 	"github.com/bufbuild/buf/private/bufpkg/bufimage"
+	"github.com/bufbuild/buf/private/bufpkg/bufmodule/bufmoduletesting"
 	"github.com/bufbuild/verifharness/internal/bufx"
 	"github.com/bufbuild/verifharness/internal/reg"
 )
@@ -50,6 +51,9 @@ type built struct {
 	anchors map[string]int
 	image   bufimage.Image
 	err     error
+	// the same files as a module that is not targeted, imported by one targeted file: every file of the model is an
+	// import of the image
+	importImage bufimage.Image
 }
 
 type world struct {
@@ -80,10 +84,36 @@ func (w *world) build(ctx context.Context, v version) *built {
 	b = &built{v: v}
 	b.files, b.anchors = render(v)
 	b.image, b.err = bufx.BuildImage(ctx, b.files)
+	if b.err == nil {
+		b.importImage, b.err = buildAsImports(ctx, b.files)
+	}
 	w.mu.Lock()
 	w.cache[k] = b
 	w.mu.Unlock()
 	return b
+}
+
+func buildAsImports(ctx context.Context, files map[string]string) (bufimage.Image, error) {
+	lib := map[string][]byte{}
+	var sb strings.Builder
+	sb.WriteString("syntax = \"proto3\";\npackage zz.app;\n")
+	var paths []string
+	for p := range files {
+		paths = append(paths, p)
+	}
+	sort.Strings(paths)
+	for _, p := range paths {
+		lib[p] = []byte(files[p])
+		sb.WriteString("import \"" + p + "\";\n")
+	}
+	ms, err := bufx.ModuleSet(
+		bufmoduletesting.ModuleData{Name: "buf.test/verif/lib", PathToData: lib, NotTargeted: true},
+		bufmoduletesting.ModuleData{Name: "buf.test/verif/app", PathToData: map[string][]byte{"zz/app/app.proto": []byte(sb.String())}},
+	)
+	if err != nil {
+		return nil, err
+	}
+	return bufx.BuildImageForModuleSet(ctx, ms)
 }
 
 func diffSig(p, c version) string {
@@ -292,6 +322,89 @@ func run(in []byte) (*reg.Result, error) {
 								res.Violate("C04/hierarchy/"+order[i]+"-clean-but-"+order[i+1]+"-not/"+ver.name+"/"+sig,
 									map[string]any{"diff": sig, "prev": prev.files, "cur": cur.files},
 									"%s: clean under %s but not under the laxer %s", ver.name, order[i], order[i+1])
+							}
+						}
+					}
+					// the same step seen through images in which every file of the model is an import (no exclude-imports):
+					// the rules judge imports as well, so the same clauses hold
+					{
+						cleanImp := map[string]bool{}
+						for _, cat := range categories {
+							cfg, err := bufx.BreakingConfig(ver.v, []string{cat}, nil, nil, nil, false)
+							if err != nil {
+								continue
+							}
+							localRuns++
+							cerr := client.Breaking(ctx, cfg, cur.importImage, prev.importImage)
+							as, ok := bufx.Annotations(cerr)
+							if !ok {
+								res.Violate("error/imports/"+ver.name+"/"+cat+"/"+sig, info, "Breaking on images of imports returned an error: %v", cerr)
+								continue
+							}
+							cleanImp[cat] = len(as) == 0
+							if wantC04 && j.compatible && len(as) > 0 {
+								res.Violate("C04/compatible-change-reported/imports/"+as[0].Type+"/"+ver.name+"/"+cat+"/"+sig,
+									map[string]any{"diff": sig, "annotations": as}, "%s category %s reports %d annotation(s) for an additive/cosmetic/identical step in an imported file, first: %s", ver.name, cat, len(as), bufx.AnnotationText(as[:1]))
+							}
+							if wantC03 {
+								for _, e := range j.expected {
+									if !has(e.Cats[ver.name], cat) {
+										continue
+									}
+									if ok, why := find(as, e); !ok {
+										res.Violate("C03/not-reported/imports/"+e.Rule+"/"+ver.name+"/"+cat+"/"+sig,
+											map[string]any{"diff": sig, "expected": e, "annotations": as}, "%s category %s, files as imports: %s expected at %s naming %v: %s", ver.name, cat, e.Rule, e.At, e.Names, why)
+									}
+								}
+							}
+						}
+						if wantC04 {
+							order := []string{"FILE", "PACKAGE", "WIRE_JSON", "WIRE"}
+							for i := 0; i+1 < len(order); i++ {
+								if cleanImp[order[i]] && !cleanImp[order[i+1]] {
+									res.Violate("C04/hierarchy/imports/"+order[i]+"-clean-but-"+order[i+1]+"-not/"+ver.name+"/"+sig,
+										map[string]any{"diff": sig}, "%s, files as imports: clean under %s but not under the laxer %s", ver.name, order[i], order[i+1])
+								}
+							}
+						}
+					}
+					if wantC03 {
+						// an ignore_only entry for one reported rule and its file must not silence the other rules there
+						var rulesHere []string
+						seenRule := map[string]bool{}
+						for _, e := range j.expected {
+							if has(e.Cats[ver.name], "FILE") && !seenRule[e.Rule] && !strings.HasPrefix(e.At, "EACH-FILLER") && e.At != "none" {
+								seenRule[e.Rule] = true
+								rulesHere = append(rulesHere, e.Rule)
+							}
+						}
+						if len(rulesHere) >= 2 {
+							for _, ignored := range rulesHere {
+								var file string
+								for _, e := range j.expected {
+									if e.Rule == ignored {
+										file, _, _ = strings.Cut(e.At, "#")
+									}
+								}
+								cfg, err := bufx.BreakingConfig(ver.v, []string{"FILE"}, nil, nil, map[string][]string{ignored: {file}}, false)
+								if err != nil {
+									continue
+								}
+								localRuns++
+								as, ok := bufx.Annotations(client.Breaking(ctx, cfg, cur.image, prev.image))
+								if !ok {
+									continue
+								}
+								for _, e := range j.expected {
+									if e.Rule == ignored || !has(e.Cats[ver.name], "FILE") {
+										continue
+									}
+									if ok, why := find(as, e); !ok {
+										res.Violate("C03/not-reported/"+e.Rule+"/"+ver.name+"/ignore-only-other-rule/"+sig,
+											map[string]any{"diff": sig, "expected": e, "ignore_only": map[string]string{ignored: file}, "annotations": as},
+											"%s FILE with ignore_only {%s: [%s]}: %s expected at %s naming %v: %s", ver.name, ignored, file, e.Rule, e.At, e.Names, why)
+									}
+								}
 							}
 						}
 					}
